@@ -1,6 +1,7 @@
 package main
 
 import (
+	"errors"
 	"github.com/olive-io/bpmn/v2/pkg/tracing"
 	bpmn "github.com/olive-io/bpmn/v2"
 	"fmt"
@@ -378,6 +379,7 @@ func runC05(env *Env) {
 		}
 		in.Close()
 	}
+	c05EndElsewhereWhileBusy(env, rep, 6)
 	c05LongLoop(env, rep)
 	env.WriteCases(rep, "", "Corr.C05corr", "list nat * nat * list nat * nat * list nat * list nat * list nat", items, "c05_mismatches")
 	env.WriteReport(rep)
@@ -482,4 +484,112 @@ func c05LongLoop(env *Env, rep *Report) {
 		}
 		in.Close()
 	}
+}
+
+// c05EndElsewhereWhileBusy: an inclusive fork activates three branches; A and B deliver their tokens to the join, the
+// third branch (task C) ends at an end event of its own -- while an unrelated parallel branch of the instance is busy
+// (a task answered with an error and "retry" over and over: task, error and boundary traces in quick succession). The
+// join releases once C's token is gone, however many other traces pass by at that moment.
+func c05EndElsewhereWhileBusy(env *Env, rep *Report, rounds int) {
+	p := &Prog{}
+	p.Node("start", "start")
+	p.Node("par", "P")
+	p.Node("incl", "I1")
+	p.Node("task", "A")
+	p.Node("task", "B")
+	p.Node("task", "C")
+	p.Node("end", "endC")
+	p.Node("incl", "I2")
+	p.Node("task", "after")
+	p.Node("end", "end")
+	p.Node("task", "N")
+	p.Node("end", "endN")
+	p.Flow("start", "P", "")
+	p.Flow("P", "I1", "")
+	p.Flow("P", "N", "")
+	p.Flow("N", "endN", "")
+	p.Flow("I1", "A", "1 == 1")
+	p.Flow("I1", "B", "2 == 2")
+	p.Flow("I1", "C", "3 == 3")
+	p.Flow("A", "I2", "")
+	p.Flow("B", "I2", "")
+	p.Flow("C", "endC", "")
+	p.Flow("I2", "after", "")
+	p.Flow("after", "end", "")
+	xmlText := p.XML("")
+	for r := 0; r < rounds && !rep.Saturated(); r++ {
+		cs := fmt.Sprintf("inclusive fork with three branches, two reach the join, the third ends elsewhere while another branch of the instance is answered 'error, retry' over and over (round %d)", r)
+		env.Current(cs)
+		defs, err := ParseDefs(xmlText)
+		must(err)
+		in, err := StartInst(defs, InstOpt{})
+		must(err)
+		rep.Evaluations++
+		rep.Nontrivial++
+		rep.Count("end_elsewhere_while_busy")
+		problem := ""
+		if !in.Answer("A", tmoStep) || !in.Answer("B", tmoStep) {
+			problem = "A or B not requested"
+		}
+		tc := in.WaitTask("C", tmoStep)
+		if problem == "" && tc == nil {
+			problem = "C not requested"
+		}
+		if problem == "" {
+			if !in.WaitUntil(tmoStep, func(l []Ev) bool { return countEv(l, "incoming", "I2") >= 2 || countEv(l, "visit", "I2") >= 2 }) {
+				problem = "the tokens of A and B did not reach the join"
+			}
+		}
+		if problem == "" {
+			time.Sleep(settle)
+			if n := countEv(in.Log(), "task", "after"); n != 0 {
+				problem = "the join released while the third branch's token was still alive"
+			}
+		}
+		if problem == "" {
+			stop := make(chan struct{})
+			stormDone := make(chan struct{})
+			go func() {
+				defer close(stormDone)
+				for {
+					select {
+					case <-stop:
+						return
+					default:
+					}
+					t := in.WaitTask("N", 50*time.Millisecond)
+					if t == nil {
+						continue
+					}
+					ch := make(chan bpmn.ErrHandler, 1)
+					ch <- bpmn.ErrHandler{Mode: bpmn.RetryMode, Retries: -1}
+					t.Do(bpmn.DoWithErrHandle(errors.New("busy"), ch))
+				}
+			}()
+			time.Sleep(time.Duration(2+r) * time.Millisecond)
+			tc.Do()
+			time.Sleep(20 * time.Millisecond)
+			close(stop)
+			<-stormDone
+			if !in.Answer("after", tmoStep) {
+				problem = "every token of the fork has arrived or ended elsewhere: the join did not release"
+			}
+			for in.Answer("N", 100*time.Millisecond) {
+			}
+			if problem == "" && !in.WaitCease(tmoStep) {
+				problem = "all tasks answered, the instance did not complete"
+			}
+		}
+		if problem != "" {
+			rep.Violate("C05-join", cs, problem+"; log (tail): "+tailStr(logString(in.Log()), 1500))
+		}
+		in.Close()
+	}
+}
+
+func tailStr(s string, n int) string {
+	if len(s) <= n {
+		return s
+	}
+	return "..." + s[len(s)-n:]
 }
